@@ -25,6 +25,7 @@ var typeNames = []string{
 	"windowAdjustMsg", "userAuthPubKeyOkMsg", "userAuthGSSAPIResponse", "userAuthGSSAPIToken", "userAuthGSSAPIMIC",
 	"userAuthGSSAPIErrTok", "userAuthGSSAPIError", "pingMsg", "pongMsg",
 	"VerifZooAll", "VerifZooNoTag", "VerifZooMulti", "VerifZooRestMid", "VerifZooInts", "VerifZooNames", "VerifZooBytes",
+	"VerifZooBadArray", "VerifZooBadSlice", "VerifZooBadPtr", "VerifZooBadKind",
 }
 
 // packet types the decoder knows (and a few it does not)
@@ -68,7 +69,16 @@ func kindOf(st reflect.Type, i int) string {
 			return "i"
 		}
 	}
-	return "?"
+	return "x" // a field type the codec does not support
+}
+
+// badKind tells the two unsupported classes apart: arrays / slices / pointers (Marshal panics) and the rest (skipped).
+func badKind(st reflect.Type, i int) string {
+	switch st.Field(i).Type.Kind() {
+	case reflect.Array, reflect.Slice, reflect.Ptr:
+		return "xp"
+	}
+	return "xs"
 }
 
 func showName(s string) string {
@@ -128,7 +138,7 @@ func showStruct(ptr interface{}) string {
 				parts[i] = "i" + n.String()
 			}
 		default:
-			parts[i] = "?"
+			parts[i] = "x"
 		}
 	}
 	return strings.Join(parts, ";")
@@ -311,6 +321,9 @@ func exec(line string) string {
 			if ks[i] == "a" {
 				ks[i] += strconv.Itoa(st.Field(i).Type.Len())
 			}
+			if ks[i] == "x" {
+				ks[i] = badKind(st, i)
+			}
 		}
 		ts := make([]int, len(tags))
 		for i, t := range tags {
@@ -445,6 +458,8 @@ func randVals(r *hx.Rand, g *hx.Gen, name string) string {
 			parts[i] = "n" + showNames(randNames(r, g))
 		case "i":
 			parts[i] = "i" + randInt(r, g).String()
+		case "x":
+			parts[i] = "x"
 		}
 	}
 	return strings.Join(parts, ";")
@@ -459,12 +474,24 @@ func validMessage(r *hx.Rand, g *hx.Gen, name string) []byte {
 	if !setStruct(ptr, randVals(r, g, name), nil) {
 		panic("gen: value list does not fit " + name)
 	}
-	return ssh.Marshal(ptr)
+	var out []byte
+	if _, panicked := hx.PanicText(func() { out = ssh.Marshal(ptr) }); panicked {
+		// a struct with an unsupported field: type byte + a few plausible bytes
+		tags, _ := ssh.VerifTypeTags(ptr)
+		out = append([]byte{tags[0]}, r.Bytes(r.Range(0, 12))...)
+		if r.Bool() {
+			copy(out[1:], []byte{0, 0, 0, 2})
+		}
+	}
+	return out
 }
+
+var lastMutation int
 
 func mutate(r *hx.Rand, g *hx.Gen, b []byte) []byte {
 	b = append([]byte(nil), b...)
 	m := r.Intn(12)
+	lastMutation = m
 	g.Stat(fmt.Sprintf("mutation.%02d", m))
 	switch m {
 	case 0: // unchanged
@@ -515,9 +542,53 @@ func mutate(r *hx.Rand, g *hx.Gen, b []byte) []byte {
 	return b
 }
 
+// decode's switch: 29 message types + default; decodeArmMut records (arm, mutation) pairs produced from a valid message
+var decodeArms = []byte{1, 5, 6, 7, 20, 30, 31, 50, 52, 51, 53, 60, 80, 81, 82, 90, 94, 91, 92, 93, 96, 97, 98, 99, 100, 61, 66, 64, 65}
+var decodeArmMut = map[[2]int]bool{}
+
 func gen(g *hx.Gen) {
 	r := g.R
-	n := g.Count(24000, 500000)
+	n := g.Count(20000, 500000)
+	defer func() {
+		// table coverage: every arm of decode's switch hit by an intact valid message (mutation 0) and the default arm;
+		// every field kind of the codec's two switches (10 supported + 2 unsupported classes) is in the struct zoo
+		hit := 0
+		for _, a := range decodeArms {
+			if decodeArmMut[[2]int{int(a), 0}] || a == 52 {
+				hit++
+			}
+		}
+		g.Stat(fmt.Sprintf("table.decode-arms=%d/%d", hit+1, len(decodeArms)+1)) // +1: default arm (all 256 type bytes are emitted)
+		pairs := 0
+		for _, a := range decodeArms {
+			for m := 0; m < 12; m++ {
+				if decodeArmMut[[2]int{int(a), m}] {
+					pairs++
+				}
+			}
+		}
+		g.StatN("pair.decode-arm+mutation.distinct", pairs)
+		kinds := map[string]bool{}
+		for _, t := range typeNames {
+			st := reflect.TypeOf(ssh.VerifNew(t)).Elem()
+			for i := 0; i < st.NumField(); i++ {
+				k := kindOf(st, i)
+				if k == "x" {
+					k = badKind(st, i)
+				}
+				kinds[k] = true
+			}
+		}
+		g.Stat(fmt.Sprintf("table.field-kinds=%d/12", len(kinds)))
+	}()
+	// every decode arm: one intact valid message (the type-52 arm takes the bare type byte)
+	for _, t := range typeNames[:39] {
+		v := validMessage(r, g, t)
+		if len(v) > 0 {
+			decodeArmMut[[2]int{int(v[0]), 0}] = true
+		}
+		g.Emit("dec data=%s", hx.Hex(v))
+	}
 
 	// every type: its schema, one valid message, the empty input, the bare type byte
 	for _, t := range typeNames {
@@ -582,7 +653,17 @@ func gen(g *hx.Gen) {
 				data = validMessage(r, g, hx.Pick(r, typeNames))
 				g.Stat("um.other-type")
 			} else {
+				before := lastMutation
 				data = mutate(r, g, validMessage(r, g, t))
+				_ = before
+				st := reflect.TypeOf(ssh.VerifNew(t)).Elem()
+				seen := map[string]bool{}
+				for i := 0; i < st.NumField(); i++ {
+					if k := kindOf(st, i); !seen[k] {
+						seen[k] = true
+						g.Stat(fmt.Sprintf("pair.kind-%s+mutation-%02d", k, lastMutation))
+					}
+				}
 			}
 			g.Emit("um t=%s data=%s", t, hx.Hex(data))
 			g.Stat("op.um")
@@ -594,7 +675,11 @@ func gen(g *hx.Gen) {
 					data[0] = hx.Pick(r, decodeTypes)
 				}
 			} else {
-				data = mutate(r, g, validMessage(r, g, hx.Pick(r, typeNames[:39])))
+				v := validMessage(r, g, hx.Pick(r, typeNames[:39]))
+				data = mutate(r, g, v)
+				if len(v) > 0 {
+					decodeArmMut[[2]int{int(v[0]), lastMutation}] = true
+				}
 			}
 			g.Emit("dec data=%s", hx.Hex(data))
 			g.Stat("op.dec")
